@@ -1,4 +1,89 @@
 import RP.Driver.Common
--- line-protocol driver for property C09 (stub)
-def handle (_line : String) : String := "unimplemented"
+import RP.Model.Regret
+/-! line-protocol driver for C09.
+
+`policy32 <player> <t> <bits>…`  `policyVector` over `Float32` (the stored regrets as f32 bit
+                                 patterns, in key order) → `~p…` (exact decimal value of each
+                                 f32 result) or `panic`
+`policyq  <player> <t> <bits>…`  the same inputs through the exact-rational instantiation the
+                                 theorems are about → `~p…` (17 significant digits)
+`clamp <bits>`                   clamp + assertions of `regret_vector` over `Float32`
+`walker <t>`                     `Profile::walker` -/
+open RP.Driver RP.Arith RP.Regret
+
+/-- exact decimal text of a binary32 value -/
+def f32ToDec (x : Float32) : String :=
+  if x.isNaN then "NaN" else
+  let b := x.toBits.toNat
+  let neg := decide (b ≥ 2 ^ 31)
+  let e : Nat := (b / 2 ^ 23) % 256
+  let m : Nat := b % 2 ^ 23
+  let sign := if neg then "-" else ""
+  if e = 255 then sign ++ "inf" else
+  let mant := if e = 0 then m else m + 2 ^ 23
+  let ex : Int := if e = 0 then -149 else (e : Int) - 150
+  if ex ≥ 0 then sign ++ toString (mant * 2 ^ ex.toNat)
+  else sign ++ toString (mant * 5 ^ (-ex).toNat) ++ "e-" ++ toString (-ex).toNat
+
+/-- exact rational value of a finite binary32 bit pattern -/
+def f32BitsToRat (b : Nat) : Option Rat :=
+  let neg := decide (b ≥ 2 ^ 31)
+  let e : Nat := (b / 2 ^ 23) % 256
+  let m : Nat := b % 2 ^ 23
+  if b ≥ 2 ^ 32 ∨ e = 255 then none else
+  let mant : Int := if e = 0 then m else m + 2 ^ 23
+  let mant := if neg then -mant else mant
+  let ex : Int := if e = 0 then -149 else (e : Int) - 150
+  some (if ex ≥ 0 then (mant : Rat) * ((2 ^ ex.toNat : Nat) : Rat) else mkRat mant (2 ^ (-ex).toNat))
+
+def digits (n : Nat) : Nat := (toString n).length
+
+/-- a rational to 17 significant decimal digits (truncated) -/
+def ratToDec (q : Rat) : String :=
+  if q.num = 0 then "0" else
+  let sign := if q.num < 0 then "-" else ""
+  let n := q.num.natAbs
+  let d := q.den
+  let k : Int := 18 + (digits d : Int) - (digits n : Int)
+  let m := if k ≥ 0 then n * 10 ^ k.toNat / d else n / (d * 10 ^ (-k).toNat)
+  sign ++ toString m ++ "e" ++ toString (-k)
+
+def natsOf (ws : List String) : Option (List Nat) := ws.mapM String.toNat?
+
+def withKeys {α : Type} (xs : List α) : List (Nat × α) := xs.zipIdx.map fun (x, i) => (i, x)
+
+def showResult {α : Type} (f : α → String) : Option (List (Nat × α)) → String
+  | none => "panic"
+  | some ps => joinSp (ps.map fun (_, p) => "~" ++ f p)
+
+def handle (line : String) : String :=
+  match words line with
+  | "policy32" :: pl :: t :: rest =>
+    match pl.toNat?, t.toNat?, natsOf rest with
+    | some pl, some t, some bs =>
+      if bs.any (· ≥ 2 ^ 32) then "bad-op" else
+      let kv := withKeys (bs.map fun b => Float32.ofBits (UInt32.ofNat b))
+      showResult f32ToDec (policyVector f32Ops eps32 pl t kv)
+    | _, _, _ => "bad-op"
+  | "policyq" :: pl :: t :: rest =>
+    match pl.toNat?, t.toNat?, natsOf rest with
+    | some pl, some t, some bs =>
+      match bs.mapM f32BitsToRat with
+      | some qs => showResult ratToDec (policyVector ratOps epsQ pl t (withKeys qs))
+      | none => "bad-op"
+    | _, _, _ => "bad-op"
+  | ["clamp", b] =>
+    match b.toNat? with
+    | some b =>
+      if b ≥ 2 ^ 32 then "bad-op" else
+      match record f32Ops clampOps32 (Float32.ofBits (UInt32.ofNat b)) with
+      | some c => "~" ++ f32ToDec c
+      | none => "panic"
+    | none => "bad-op"
+  | ["walker", t] =>
+    match t.toNat? with
+    | some t => toString (RP.Discount.walker t)
+    | none => "bad-op"
+  | _ => "bad-op"
+
 def main : IO Unit := RP.Driver.run handle
